@@ -64,6 +64,9 @@ PROGRAMS = {
 }
 
 
+PROGRAMS["lateimport"] = "import sys\nsys.path.insert(0, '.')\n" + PROGRAMS["canonical"]  # the inline_snapshot import follows a statement
+
+
 def project(prog, cfg):
     files = {}
     src = PROGRAMS[prog]
@@ -155,7 +158,7 @@ def markers(prog, files):
     """Which categories have visibly been applied in the resulting test files (independent of any expected text)."""
     t = "\n".join(v for k, v in sorted(files.items()) if k.endswith(".py"))
     t2 = t.replace(" ", "").replace('"', "'")
-    if prog in ("canonical", "twofiles"):
+    if prog in ("canonical", "twofiles", "lateimport"):
         return {
             "create": "assert1==snapshot(1)" in t2,
             "fix": "assert2==snapshot(2)" in t2,
@@ -337,7 +340,7 @@ def bounds(tier):
 
 
 def _progs(tier):
-    return ["canonical", "nopending", "twofiles"] if tier == "quick" else ["canonical", "nopending", "container", "twofiles", "onlytrim"]
+    return ["canonical", "nopending", "twofiles", "lateimport"] if tier == "quick" else ["canonical", "nopending", "container", "twofiles", "onlytrim", "lateimport"]
 
 
 def explore(tier, seed, runner):
@@ -357,6 +360,9 @@ def explore(tier, seed, runner):
         if prog == "nopending":
             cs = [c for c in cs if "short-report" in (c.get("cli") or []) + (c.get("env") or []) + (c.get("default") or []) or "trim" in (c.get("cli") or [])
                   or c.get("answers") or not c.get("cli")][:: (1 if tier != "quick" else 2)]
+        if prog == "lateimport":
+            cs = [c for c in cs if "trim" in (c.get("cli") or []) + (c.get("env") or []) + (c.get("default") or []) or (c.get("answers") and "y" in c["answers"])
+                  or c.get("shortcut")][:: (1 if tier != "quick" else 2)]
         for i in range(0, len(cs), 6):
             tasks.append({"prog": prog, "cfgs": cs[i : i + 6], "ref": ref})
     for t, r in zip(tasks, runner(tasks)):
